@@ -49,6 +49,9 @@ def build1(hname, hsrc, hkw, san):
     os.makedirs(d)
     flags = ["-std=c++20", "-O0", "-g", "--coverage", "-fno-inline", "-DCOCLS_VERIF"] + san + [f for f in hkw.get("extra_flags", ())] + \
             ["-I" + os.path.join(core.REPO, "src"), "-I" + os.path.join(VERIF, "harness")]
+    # the harnesses name private library members through the generated VN_ macros (extract/names.py): same force-include as build_harness
+    nd = core.names_header_dir()
+    flags += ["-I" + nd, "-include", os.path.join(nd, "cocls_names.h")]
     objs = []
     for s in list(hsrc) + ["cov_support.cpp"]:
         o = os.path.join(d, os.path.splitext(s)[0] + ".o")
